@@ -270,7 +270,7 @@ def r5(ctx: Ctx, m):
   for callee, lock, side in table:
     n_sites = 0
     for fi in m.methods():
-      if fi.name == callee:
+      if fi.name.lstrip('_') == callee:
         continue
       g = cfgm.cfg_of(fi.node)
       for node in g.nodes:
@@ -366,6 +366,33 @@ def r5(ctx: Ctx, m):
                ' consumer sees queue.Empty for ever', node=nd.ast, witness=wit[-8:])
     else:
       ctx.ok(rule, gn, 'get_nowait: successful dequeue => notify enqueue', nd.ast)
+  # (a'') the mirror image: the public non-blocking enqueue wakes a consumer blocked on the empty buffer
+  pn = m.method('put_nowait')
+  pg = cfgm.cfg_of(pn.node)
+  raw = [nd for nd in pg.nodes if any(isinstance(x, ast.Call) and (
+      unparse(x.func) == 'self._queue.put_nowait' or (unparse(x.func).startswith('self._') and unparse(x.func).lstrip('self._') and
+                                                     unparse(x.func).split('.')[-1].lstrip('_') == 'put_nowait'
+                                                     and unparse(x.func) != 'self._queue.put_nowait'))
+                                      for x in cfgm.node_exprs(nd))]
+  if not raw:
+    raise AnalysisError(f'{rule}: put_nowait no longer enqueues into self._queue')
+  for nd in raw:
+    through = lambda n_: sync.node_notifies(n_, pn, DEQ)
+    wit = None
+    for s_, lab in nd.succ:
+      if lab in ('exc', 'close') or through(s_):
+        continue
+      w = pg.must_pass(s_, [pg.exit_ret], through, cfgm.only_normal)
+      if w is not None or s_ is pg.exit_ret:
+        wit = w or [nd.text()]
+    if wit is not None:
+      ctx.fail(rule, pn, 'put_nowait: a successful enqueue notifies the dequeue condition',
+               'the public non-blocking put_nowait() enqueues an element without notifying the dequeue'
+               ' condition: a consumer blocked in get() / get_batch() on the empty queue is never woken by a'
+               ' producer that only uses put_nowait() — the elements pile up in the buffer and the consumer'
+               ' sleeps on (for ever without a timeout)', node=nd.ast, witness=wit[-8:])
+    else:
+      ctx.ok(rule, pn, 'put_nowait: successful enqueue => notify dequeue', nd.ast)
   # (c) updates that can complete enqueueing
   watched = ('_enqueue_stop', '_enqueue_start', '_max_enqueuer')
   exempt = {'_start_enqueue': 'only increments _enqueue_start and raises'
@@ -554,8 +581,8 @@ def r16(ctx: Ctx, m):
     for t in walk_no_nested(fi.node):
       if not isinstance(t, ast.Try):
         continue
-      ops = {c.func.attr for b in t.body for c in ast.walk(b) if isinstance(c, ast.Call) and isinstance(
-          c.func, ast.Attribute) and c.func.attr in _EXC_PAIRS and unparse(c.func.value) in ('self._queue', 'self')}
+      ops = {c.func.attr.lstrip('_') for b in t.body for c in ast.walk(b) if isinstance(c, ast.Call) and isinstance(
+          c.func, ast.Attribute) and c.func.attr.lstrip('_') in _EXC_PAIRS and unparse(c.func.value) in ('self._queue', 'self')}
       for op in sorted(ops):
         pair = _EXC_PAIRS[op]
         caught = set()
@@ -1220,7 +1247,7 @@ def r14(ctx: Ctx, m):
           isinstance(x, ast.Call) and isinstance(x.func, ast.Attribute) and x.func.attr == 'wait'
           and m.eng.lock_id(x.func.value, fi, {}) == lock for x in cfgm.node_exprs(nd))]
       is_attempt = lambda nd: any(isinstance(x, ast.Call) and isinstance(x.func, ast.Attribute)
-                                  and x.func.attr == attempt for x in cfgm.node_exprs(nd))
+                                  and x.func.attr.lstrip('_') == attempt for x in cfgm.node_exprs(nd))
       for w in waits:
         n += 1
         seen = {w}
@@ -1260,6 +1287,15 @@ from mlmverif.selfcheck import B, OK  # noqa: E402
 
 _F = 'utils/iter_utils.py'
 VARIANTS = [
+    B('revert-put-nowait-without-wake-up', _F,
+      "    self._put_nowait(value)\n    # An element arrived: wakes a consumer blocked on the empty queue, also for\n    # a producer that only polls with put_nowait().\n    with self._dequeue_lock:\n      self._dequeue_lock.notify()\n",
+      "    self._put_nowait(value)\n", 'R-C04-5'),
+    B('put-notifies-while-holding-the-enqueue-condition', _F,
+      "          self._put_nowait(value)\n          _release_and_notify(self._enqueue_lock, notify=self._dequeue_lock)\n          return",
+      "          self.put_nowait(value)\n          self._enqueue_lock.release()\n          return", 'R-C04-4'),
+    OK('put-nowait-notifies-all', _F,
+       "    with self._dequeue_lock:\n      self._dequeue_lock.notify()\n\n  def put(",
+       "    with self._dequeue_lock:\n      self._dequeue_lock.notify_all()\n\n  def put("),
     OK('batch-consumer-wakes-producer-once', _F,
       '    result = []\n    with self._dequeue_lock:\n      while not max_batch_size or len(result) < max_batch_size:',
       '    result = []\n    producer_notified = False\n    with self._dequeue_lock:\n      while not max_batch_size or len(result) < max_batch_size:',
@@ -1340,11 +1376,11 @@ VARIANTS = [
       '          value = self.get_nowait()\n          with self._enqueue_lock:\n            self._enqueue_lock.notify()',
       None,
       extra=((_F,
-              '          self.put_nowait(value)\n          _release_and_notify(self._enqueue_lock, notify=self._dequeue_lock)',
-              '          self.put_nowait(value)\n          with self._dequeue_lock:\n            self._dequeue_lock.notify()'),)),
+              '          self._put_nowait(value)\n          _release_and_notify(self._enqueue_lock, notify=self._dequeue_lock)',
+              '          self._put_nowait(value)\n          with self._dequeue_lock:\n            self._dequeue_lock.notify()'),)),
     B('drop-handoff-after-put', _F,
-      '          self.put_nowait(value)\n          _release_and_notify(self._enqueue_lock, notify=self._dequeue_lock)\n          return',
-      '          self.put_nowait(value)\n          return',
+      '          self._put_nowait(value)\n          _release_and_notify(self._enqueue_lock, notify=self._dequeue_lock)\n          return',
+      '          self._put_nowait(value)\n          return',
       'R-C04-5'),
     # benign since fix 61eb96f: get_nowait() itself wakes a producer after every
     # successful dequeue, the callers' own notifications are redundant
@@ -1372,8 +1408,8 @@ VARIANTS = [
     B('stop-enqueue-drops-values', _F,
       '      self._returned.extend(values)\n', '', 'R-C04-6'),
     B('put-retries-after-success', _F,
-      '          self.put_nowait(value)\n          _release_and_notify(self._enqueue_lock, notify=self._dequeue_lock)\n          return',
-      '          self.put_nowait(value)\n          _release_and_notify(self._enqueue_lock, notify=self._dequeue_lock)\n          continue',
+      '          self._put_nowait(value)\n          _release_and_notify(self._enqueue_lock, notify=self._dequeue_lock)\n          return',
+      '          self._put_nowait(value)\n          _release_and_notify(self._enqueue_lock, notify=self._dequeue_lock)\n          continue',
       'R-C04-7'),
     B('get-nowait-dequeues-twice', _F,
       '        self._enqueue_lock.notify()\n      return result\n',
@@ -1387,8 +1423,8 @@ VARIANTS = [
       '          with self._states_lock:\n            if self._enqueue_lock.wait(timeout=self.timeout):\n              continue',
       'R-C04-4'),
     OK('inline-helper-in-put', _F,
-       '          self.put_nowait(value)\n          _release_and_notify(self._enqueue_lock, notify=self._dequeue_lock)\n          return',
-       '          self.put_nowait(value)\n          self._enqueue_lock.release()\n          try:\n            with self._dequeue_lock:\n              self._dequeue_lock.notify()\n          finally:\n            self._enqueue_lock.acquire()\n          return'),
+       '          self._put_nowait(value)\n          _release_and_notify(self._enqueue_lock, notify=self._dequeue_lock)\n          return',
+       '          self._put_nowait(value)\n          self._enqueue_lock.release()\n          try:\n            with self._dequeue_lock:\n              self._dequeue_lock.notify()\n          finally:\n            self._enqueue_lock.acquire()\n          return'),
     OK('with-instead-of-manual-acquire', _F,
        '      if self.enqueue_done:\n        _release_and_notify(\n            self._states_lock, notify=self._dequeue_lock, notify_all=True\n        )',
        '      done = self.enqueue_done\n      if done:\n        _release_and_notify(\n            self._states_lock, notify=self._dequeue_lock, notify_all=True\n        )'),
